@@ -144,12 +144,11 @@ func (r *SchemaURL) fromMap(v map[string]interface{}) error {
 	}
 	if vv, ok := v["$schema"]; ok {
 		if str, ok := vv.(string); ok {
-			u, err := parseURL(str)
-			if err != nil {
+			if _, err := parseURL(str); err != nil {
 				return err
 			}
 
-			*r = SchemaURL(u.String())
+			*r = SchemaURL(str)
 		}
 	}
 	return nil
